@@ -50,6 +50,41 @@ def tPathOfJ (j : Json) : Except String Path := do
   let segs ← ss.toList.mapM tSegOfJ
   pure ⟨r, segs⟩
 
+def tKindOfJ (s : Str) : Except String CKind :=
+  if s = "list".toList then pure .list
+  else if s = "tuple".toList then pure .tuple
+  else if s = "dict".toList then pure .dict
+  else if s = "dictcall".toList then pure .dictCall
+  else throw "container kind"
+
+/-- expressions: `{"ref": path}` | `{"dflt": {"x": "name", "d": "…"}}` |
+`{"coll": {"k": "list|tuple|dict|dictcall", "items": [[key, expr], …]}}` (keys of a dict form
+must be distinct: Python keeps the LAST value of a repeated key) -/
+partial def exprOfJ (j : Json) : Except String Expr := do
+  if let .ok p := j.getObjVal? "ref" then return .ref (← tPathOfJ p)
+  if let .ok d := j.getObjVal? "dflt" then
+    return .dflt (← getStr d "x") (← getStr d "d")
+  if let .ok c := j.getObjVal? "coll" then
+    let k ← tKindOfJ (← getStr c "k")
+    let its ← getArr c "items"
+    let items ← its.toList.mapM fun kv => do
+      let a ← kv.getArr?
+      match a.toList with
+      | [key, e] => do let ks ← asStr key; let ee ← exprOfJ e; pure (ks, ee)
+      | _ => throw "coll item"
+    let keys := items.map Prod.fst
+    if (k = .dict ∨ k = .dictCall) ∧ keys.eraseDups.length ≠ keys.length then
+      throw "repeated dict key: outside the fragment"
+    return .coll k items
+  throw "expr"
+
+partial def tPValJ : PVal → Json
+  | .val v => tValJ v
+  | .undef p => Json.mkObj [("undef", strJ p.show)]
+  | .coll .list items => Json.arr (items.map fun kv => tPValJ kv.2).toArray
+  | .coll .tuple items => Json.mkObj [("tuple", Json.arr (items.map fun kv => tPValJ kv.2).toArray)]
+  | .coll _ items => Json.mkObj [("rec", Json.arr (items.map fun kv => Json.arr #[strJ kv.1, tPValJ kv.2]).toArray)]
+
 def tSeqOf : List Tmpl → Tmpl
   | [] => .lit []
   | [t] => t
@@ -59,6 +94,12 @@ partial def tmplOfJ (j : Json) : Except String Tmpl := do
   if let .ok s := getStr j "lit" then return .lit s
   if let .ok p := j.getObjVal? "var" then return .var (← tPathOfJ p)
   if let .ok p := j.getObjVal? "esc" then return .escVar (← tPathOfJ p)
+  if let .ok x := j.getObjVal? "expr" then
+    let e ← exprOfJ (← x.getObjVal? "e")
+    match x.getObjVal? "cat" with
+    | .ok Json.null => return .expr e none
+    | .ok f => return .expr e (some (← exprOfJ f))
+    | .error _ => return .expr e none
   if let .ok a := getArr j "seq" then
     let ts ← a.toList.mapM tmplOfJ
     return tSeqOf ts
@@ -81,6 +122,10 @@ def srcOfJ (j : Json) : Except String Src := do
     let r ← getStr n "r"
     let p ← tPathOfJ (← n.getObjVal? "p")
     return .nat l p r
+  if let .ok n := j.getObjVal? "natE" then
+    let l ← getStr n "l"
+    let r ← getStr n "r"
+    return .natE l (← exprOfJ (← n.getObjVal? "e")) r
   if let .ok a := getArr j "nat2" then
     match a.toList with
     | [p, q] => return .nat2 (← tPathOfJ p) (← tPathOfJ q)
@@ -90,6 +135,7 @@ def srcOfJ (j : Json) : Except String Src := do
 def tPolOfJ (j : Json) (k : String) : Except String Policy := do
   let s ← getStr j k
   if s = "strict".toList then pure .strict
+  else if s = "strictShallow".toList then pure .strictShallow
   else if s = "lenient".toList then pure .lenient
   else throw "policy"
 
@@ -99,7 +145,7 @@ def tConfOfJ (j : Json) : Except String Conf :=
   | .ok c => do
     let t ← tPolOfJ c "text"
     let n ← tPolOfJ c "nat"
-    pure ⟨t, n, getBoolD c "check" true⟩
+    pure ⟨t, n, getBoolD c "check" true, getBoolD c "deep" true⟩
 
 def tErrJ : Err → Json
   | .undefined p => Json.mkObj [("error", Json.str "undefined"), ("path", strJ p.show)]
@@ -110,11 +156,15 @@ def tOutJ : Out → Json
   | .text s => Json.mkObj [("text", strJ s)]
   | .value v => Json.mkObj [("value", tValJ v)]
   | .undefinedObject => Json.mkObj [("undefined_object", Json.bool true)]
+  | .pvalue v => Json.mkObj [("value", tPValJ v)]
+  | .holdsUndefined => Json.mkObj [("holds_undefined", Json.bool true)]
 
 def tParsedJ : Parsed → Json
   | .cell c => Json.mkObj [("cell", cellJ c)]
   | .value v => Json.mkObj [("value", tValJ v)]
   | .undefinedObject => Json.mkObj [("undefined_object", Json.bool true)]
+  | .pvalue v => Json.mkObj [("value", tPValJ v)]
+  | .holdsUndefined => Json.mkObj [("holds_undefined", Json.bool true)]
 
 def handleTemplate (op : String) (j : Json) : Except String Json := do
   match op with
